@@ -11,7 +11,7 @@ import NV.Driver.Upfault
 import NV.Driver.Discovery
 namespace NV
 
-def steppers : List (List String → Option String) := [stepCore, stepCap, stepListen, stepUpfault, Disc.stepDiscovery]
+def steppers : List (List String → Option String) := [stepCore, stepCap, stepRaceSoak, stepListen, stepUpfault, Disc.stepDiscovery]
 
 def step (line : String) : String :=
   let toks := line.splitOn " "
